@@ -173,6 +173,19 @@ def check (c):
         if not (b <= a / 3 or b <= 1e-9):
             bad ('sigma-limit-2med', 'sigma-convergence-two-media', 'first of two media with sigma = 1e4 .. 1e12: successive pattern changes %s (each must be at most a third of the one before)' % (['%.2e' % x for x in steps],))
             break
+    # ---- (b3) a radial screen that reaches beyond every reflection point, with more and more radials: the pattern
+    # approaches that over ideal ground, for both polarisations (ten million radials are a metal sheet: within 3e-4 of the maximum,
+    # and at least three times closer than a thousand radials)
+    far_r = max_reflection (mi, 'circular') * 1.2 + 1e-6
+    lin_i0 = 10 ** (gi [..., 2] / 10)
+    dscr = []
+    for nrad in (1000, 100000, 10000000):
+        m3, _, _ = solved (spec, [[g ['eps'], g ['sig'], 0.0, far_r], [g ['eps2'], g ['sig2'], 0.0]], 'circular', [nrad, g ['radials'][1]])
+        dscr.append (float (np.abs (10 ** (pattern (m3) [..., 2] / 10) - lin_i0).max () / lin_i0.max ()))
+    mon ['dense-screen'] = 1
+    worst = max (worst, dscr [-1] / 3e-4)
+    if dscr [-1] > 3e-4 or not (dscr [-1] <= dscr [0] / 3 or dscr [-1] <= 1e-6):
+        bad ('dense-screen', 'dense-screen-limit', 'radial screen beyond every reflection point with 1e3, 1e5, 1e7 radials: deviation from the ideal-ground pattern %s of the maximum' % (['%.2e' % x for x in dscr],), measured = dscr [-1], allowed = 3e-4)
     # ---- (b) conductivity limit
     sel  = np.ones (gi.shape [:2], bool)
     sel [-1] = False           # 85 deg zenith = 5 deg elevation kept; drop nothing else
